@@ -171,6 +171,24 @@ class Arr:
     def tolist(self):
         return list(self.data)
 
+    @property
+    def itemsize(self):
+        return 1 if all(isinstance(v, bool) for v in self.data[:1]) else 8
+
+    @property
+    def nbytes(self):
+        return len(self.data) * self.itemsize
+
+    def tobytes(self, *a, **k):
+        if self.itemsize == 1:
+            return bytes(bytearray(1 if v else 0 for v in self.data))
+        return repr(self.data).encode()
+
+    def reshape(self, *shape):
+        if shape in ((-1,), ((-1,),), (len(self.data),)):
+            return self.view()
+        raise AnalysisError(f"model array: reshape{shape} not modelled")
+
     def copy(self):
         return Arr(self.data, self.dtype)
 
@@ -655,6 +673,28 @@ class AstClass:
             self._members = m
         return self._members
 
+    def class_attr(self, name):
+        """value of a class-level assignment ``name = <expr>`` - evaluated
+        once, so that a mutable default is one object shared by all
+        instances (as in Python); raises KeyError when there is none"""
+        if not hasattr(self, "_cattrs"):
+            self._cattrs = {}
+            self._cexprs = {}
+            for st in self.node.body:
+                if isinstance(st, ast.Assign):
+                    for t in st.targets:
+                        if isinstance(t, ast.Name):
+                            self._cexprs[t.id] = st.value
+                elif isinstance(st, ast.AnnAssign) and st.value is not None \
+                        and isinstance(st.target, ast.Name):
+                    self._cexprs[st.target.id] = st.value
+        if name not in self._cattrs:
+            if name not in self._cexprs:
+                raise KeyError(name)
+            self._cattrs[name] = self.interp.eval(
+                self._cexprs[name], Frame(self.genv, {}))
+        return self._cattrs[name]
+
     def bases(self):
         out = []
         for b in self.node.bases:
@@ -981,6 +1021,12 @@ def lookup_attr(interp, obj, name, node):
             return _bind(obj, defs, owner, name)
         if name == "__class__":
             return obj._cls
+        for c in obj._cls.mro():
+            if isinstance(c, AstClass):
+                try:
+                    return c.class_attr(name)
+                except KeyError:
+                    pass
         raise ModelFault("AttributeError", f"'{obj._cls.name}' object has no "
                          f"attribute '{name}'", node)
     if isinstance(obj, AstClass):
@@ -1273,8 +1319,24 @@ class Interp:
         except TypeError as e:
             raise ModelFault("TypeError", str(e), node)
 
+    def iter_live(self, it, node):
+        """iterator with Python's semantics for containers that are
+        modified during the loop (lists: by position; generators: lazily;
+        dicts: RuntimeError)"""
+        if isinstance(it, (list, dict, set)) or hasattr(it, "__next__") \
+                or type(it).__name__ in ("dict_keys", "dict_values",
+                                         "dict_items", "generator"):
+            def gen():
+                try:
+                    for v in it:
+                        yield v
+                except RuntimeError as e:
+                    raise ModelFault("RuntimeError", str(e), node)
+            return gen()
+        return iter(self.iterate(it, node))
+
     def s_For(self, st, f):
-        items = self.iterate(self.eval(st.iter, f), st.iter)
+        items = self.iter_live(self.eval(st.iter, f), st.iter)
         for v in items:
             self.assign(st.target, v, f)
             try:
@@ -1611,7 +1673,24 @@ class Interp:
             self.eval(e.elt, fr)))
         return out
 
-    e_GeneratorExp = e_ListComp
+    def e_GeneratorExp(self, e, f):
+        """lazy: the outermost iterable is evaluated now, the elements when
+        they are requested"""
+        inner = Frame(f.genv, {}, closure=f.closure, parent=f)
+        gens = e.generators
+        first = self.eval(gens[0].iter, f)
+
+        def rec(i, fr):
+            if i == len(gens):
+                yield self.eval(e.elt, fr)
+                return
+            g = gens[i]
+            src = first if i == 0 else self.eval(g.iter, fr)
+            for v in self.iter_live(src, g.iter):
+                self.assign(g.target, v, fr)
+                if all(self.truth(self.eval(c, fr), c) for c in g.ifs):
+                    yield from rec(i + 1, fr)
+        return rec(0, inner)
 
     def e_SetComp(self, e, f):
         return set(self.e_ListComp(e, f))
